@@ -207,6 +207,8 @@ def random_walks(seed, count, depth, ops=("begin", "commit", "cancel"), read_car
                     p["early_status"] = True
             elif k < 0.78:
                 p = {"o": "abort", "code": rnd.choice([rnd.randrange(256), 160, 108, 252, 184, 183])}
+                if rnd.random() < 0.3:
+                    p["status_first"] = True
             elif k < 0.84:
                 p = {"o": "noreceipt", "open": rnd.random() < 0.5}
             elif k < 0.89:
